@@ -12,6 +12,13 @@ cd "$ROOT/sim" || exit 2
 SEED="${VERIF_SEED:-1}"
 FLAGS="-Zmiri-tree-borrows -Zmiri-deterministic-floats -Zmiri-disable-isolation"
 RF="--cfg rubato_verif"
+TD=""
+if [ "$P" = C03S ]; then
+  # SIMD pass: sinc kinds only (rustfft's own AVX code is not Miri-clean), own target dir because of the flags
+  RF="--cfg rubato_verif -C target-feature=+avx,+fma,+sse3"
+  TD="$ROOT/sim/target/miri-simd"
+  export CARGO_TARGET_DIR="$TD"
+fi
 # sinc kernels: let Miri interpret the AVX/SSE code paths too (rustfft's own AVX code trips Miri's alignment
 # check, so the FFT kinds run with default target features in a second pass)
 T0=$(date +%s)
